@@ -61,6 +61,9 @@ type ExecOpt struct {
 	FullCompare  bool // compare the whole logical state with the model after every write op
 	TraceStates  bool // keep a clone of the model after every op (E-CRASH parent)
 	NoModelCheck bool // worker mode: just execute, no oracle
+	// Focus is the property whose check the run belongs to ("" = none): findings
+	// of the plain audit that concern only other properties are passed over
+	Focus string
 }
 
 type Exec struct {
@@ -84,6 +87,8 @@ type Exec struct {
 	// inCrashSettle: the op's post-state is being reconstructed after a crash
 	inCrashSettle bool
 	lastWant      string
+	plainAudit    bool // the audit in progress is the plain one (after an op / at the end of a run)
+	passedOver    int
 	lastFailedOp  int // index of the last op that failed as it had to (-1: none)
 	// OpHitCapacity: the current op failed with a legitimate backend capacity error
 	OpHitCapacity bool
@@ -182,6 +187,28 @@ func (e *Exec) fail(props []string, rule, msg string, feats map[string]string) {
 		feats["afterFailedOp"] = "1"
 	}
 	e.V = &Violation{Props: props, Rule: rule, Msg: msg, OpIdx: e.opIdx, OpK: k, Features: feats}
+}
+
+// auditFail reports a finding of the read-only audit. In a run that belongs to
+// the check of one property (Opt.Focus), a finding of the plain per-operation
+// audit which does not concern that property is counted and passed over: the
+// audit observes, it does not steer the run, so the run can go on to the
+// operations that would show the focused property broken (a stale index entry
+// is C06's business when found by the audit, and C03's when the next bulk
+// operation walks that index and calls the update function twice).
+func (e *Exec) auditFail(props []string, rule, msg string, feats map[string]string) {
+	if e.plainAudit && e.Opt.Focus != "" {
+		has := false
+		for _, p := range props {
+			has = has || p == e.Opt.Focus
+		}
+		if !has {
+			e.Stats.Probes["audit-finding-of-another-property-passed-over"]++
+			e.passedOver++
+			return
+		}
+	}
+	e.fail(props, rule, msg, feats)
 }
 
 func (e *Exec) probe(name string)     { e.Stats.Probes[name]++ }
@@ -620,7 +647,7 @@ func (e *Exec) compareAll(target string, targetProps []string, what string) {
 			return
 		}
 		if err != nil {
-			e.fail([]string{"C01", "C13"}, "C01/readback-error", fmt.Sprintf("after %s: reading collection %q failed: %v", what, name, err), map[string]string{"err": firstLine(err.Error())})
+			e.fail([]string{"C01", "C13", "C11"}, "C01/readback-error", fmt.Sprintf("after %s: reading collection %q failed: %v", what, name, err), map[string]string{"err": firstLine(err.Error())})
 			return
 		}
 		if diff != "" {
@@ -905,8 +932,10 @@ func (e *Exec) Step(i int, op *Op) bool {
 		// a crash hit an operation that has no crash handling of its own (a read)
 		e.restartAfterCrash()
 	}
-	if e.V == nil && e.Opt.AuditEvery > 0 && !e.closed && (i+1)%e.Opt.AuditEvery == 0 {
+	if e.V == nil && e.Opt.AuditEvery > 0 && !e.closed && (i+1)%e.Opt.AuditEvery == 0 && op.Note != "noaudit" {
+		e.plainAudit = true
 		e.Audit()
+		e.plainAudit = false
 	}
 	if e.Opt.TraceStates {
 		e.States = append(e.States, e.M.Clone())
@@ -1367,7 +1396,7 @@ func (e *Exec) afterWrite(target string, targetProps []string, what string) {
 			return
 		}
 		if err != nil {
-			e.fail(targetProps, "C01/readback-error", fmt.Sprintf("after %s: reading %q failed: %v", what, target, err), nil)
+			e.fail(append(append([]string{}, targetProps...), "C11"), "C01/readback-error", fmt.Sprintf("after %s: reading %q failed: %v", what, target, err), nil)
 		} else if diff != "" {
 			if typeOnly {
 				e.fail([]string{"C11"}, "C11/type-or-zone", fmt.Sprintf("after %s: %s", what, diff), e.collFeatures(target))
@@ -1485,7 +1514,9 @@ func (e *Exec) checkDropResidue(op *Op) {
 		if s.ok {
 			e.checked("empty-store")
 			if n := len(s.keys()); n != 0 {
-				e.fail([]string{"C06", "C03"}, "C06/residue-after-drop", fmt.Sprintf("every collection was dropped but %d keys remain, e.g. %s", n, showKeys(s.keys())), nil)
+				e.plainAudit = true
+				defer func() { e.plainAudit = false }()
+				e.auditFail([]string{"C06", "C03"}, "C06/residue-after-drop", fmt.Sprintf("every collection was dropped but %d keys remain, e.g. %s", n, showKeys(s.keys())), nil)
 			} else {
 				e.probe("all-dropped-store-empty")
 			}
